@@ -147,6 +147,12 @@ fn one_tree(t: &Rose, rng: &mut Rng, reqs: &mut Vec<String>, pend: &mut Vec<Pend
                         Err(_) => continue,
                     }
                 }
+                // every second group works on a layout the CALLER has moved (public fields): rescaling multiplies every coordinate,
+                // wherever the drawing sits
+                if k % 2 == 1 {
+                    for b in l.branches.iter_mut() { b.xstart += 10.0; b.xend += 10.0; b.ystart += 5.0; b.yend += 5.0; }
+                    for n in l.nodes.iter_mut() { n.x += 10.0; n.y += 5.0; }
+                }
                 for &f in factors.iter() {
                     let before: Vec<(f64, f64, f64, f64)> = l.branches.iter().map(|b| (b.xstart, b.ystart, b.xend, b.yend)).collect();
                     let pts: Vec<(f64, f64)> = l.nodes.iter().map(|n| (n.x, n.y)).collect();
